@@ -27,7 +27,29 @@ class Report:
 
     # -- rule registration ----------------------------------------------------------------
     def rule(self, rid, text):
-        self.rules[rid] = text
+        self.rules[self._map(rid)] = text
+
+    # -- importing the rules of the property that owns a shared mechanism ---------------------
+    def _map(self, rid):
+        for frm, to in getattr(self, "_renames", ()):
+            if rid.startswith(frm):
+                return to + rid[len(frm):]
+        return rid
+
+    def importing(self, frm, to):
+        """`with rep.importing("C07.", "C05.one-line."):` — obligations recorded inside by rule functions of another property
+        (ids starting with `frm`) are booked under this property's rule ids (`to` + rest): a clause of this property that rests
+        on a mechanism another property owns is decided by that property's rule, on the same facts."""
+        rep = self
+
+        class _Ctx:
+            def __enter__(self):
+                rep._renames = getattr(rep, "_renames", ()) + ((frm, to),)
+
+            def __exit__(self, *a):
+                rep._renames = rep._renames[:-1]
+                return False
+        return _Ctx()
 
     def count(self, key, n=1):
         self.counters[key] = self.counters.get(key, 0) + n
@@ -44,12 +66,14 @@ class Report:
 
     # -- obligations ----------------------------------------------------------------------
     def ok(self, rule, instance, detail=None):
+        rule = self._map(rule)
         self.obligations.append((rule, instance, True))
         if detail is not None and len(self.samples) < 400:
             self.samples.append({"rule": rule, "instance": instance, "verdict": "holds", "detail": detail})
 
     def fail(self, rule, instance, where, msg, facts=None):
         """Record a violated obligation.  key = '<rule>:<instance>' (no line numbers)."""
+        rule = self._map(rule)
         self.obligations.append((rule, instance, False))
         self.violations.append({
             "property": self.pid, "rule": rule, "instance": instance,
